@@ -72,6 +72,15 @@ let of_stage sl = L [of_list (of_list (of_pair of_nat of_nat)) sl.sl_outs; of_li
 let of_regroup = function NoRegroup -> A "noregroup"
   | Regroup (a, b, gets) -> L [A "regroup"; of_nat a; of_nat b; of_list (of_pair of_nat of_nat) gets]
 let of_shuffle l = L [of_list of_stage l.sh_stages; of_regroup l.sh_regroup]
+let rec get_pred = function
+  | L [A "a"; n] -> PAtom (get_nat n)
+  | L [A "and"; l; r] -> PAnd (get_pred l, get_pred r)
+  | L [A "or"; l; r] -> POr (get_pred l, get_pred r)
+  | _ -> failwith "pred"
+let rec of_pred = function
+  | PAtom n -> L [A "a"; of_nat n]
+  | PAnd (l, r) -> L [A "and"; of_pred l; of_pred r]
+  | POr (l, r) -> L [A "or"; of_pred l; of_pred r]
 (*DISPATCH-BEGIN*)
 let dispatch (fn : string) (args : sx list) : sx =
   match fn, args with
@@ -101,6 +110,20 @@ let dispatch (fn : string) (args : sx list) : sx =
                     (get_list get_nat sel) (get_bool filtered))
   | "simple_layer", [n_in; n_out; sel; filtered] ->
       of_shuffle (simple_layer (get_nat n_in) (get_nat n_out) (get_list get_nat sel) (get_bool filtered))
+  | "rewrite_filters", [p] -> of_pred (rewrite_filters (get_pred p))
+  | "lru_run", [maxsize; ops] ->
+      (* ops: (c k) contains | (g k) getitem | (s k v) setitem ; values are nats *)
+      let st = ref { items = []; maxsize = get_nat maxsize } in
+      let outs = List.map (fun op -> match op with
+        | L [A "c"; k] -> of_bool (contains !st (get_nat k))
+        | L [A "g"; k] -> let (v, s') = getitem !st (get_nat k) in st := s'; of_opt of_nat v
+        | L [A "s"; k; v] -> (match setitem !st (get_nat k) (get_nat v) with
+                              | Some s' -> st := s'; A "ok" | None -> A "keyerror")
+        | _ -> failwith "lru op") (match ops with L l -> l | _ -> failwith "ops") in
+      L [L outs; of_list (of_pair of_nat of_nat) !st.items]
+  | "wf_check", [g; outs] ->
+      let get_node = function L [k; deps] -> { g_key = get_nat k; g_deps = get_list get_nat deps } | _ -> failwith "node" in
+      of_bool (wf_check (get_list get_node g) (get_list get_nat outs))
   | _ -> failwith ("unknown request " ^ fn)
 (*DISPATCH-END*)
 
